@@ -600,6 +600,8 @@ class Sim:
         self.env = env
         self.inp = Inputs(world)
         W.hook = (lambda: env.tick("Mw", None)) if world["domain"] == "wrapped" else None
+        self._solvers = {}
+        self._fd_dicts = {c: dict(mk) for c, mk in self.inp.masks.items()}
         self.comps = {}
         self.chain_h = {}
         inp = self.inp
@@ -722,6 +724,8 @@ class Sim:
     # ---- custom solvers (caller supplied)
     def audit_objects(self):
         objs = dict(self.inp.audit_objects())
+        for c, dct in self._fd_dicts.items():
+            objs[("fd_keys", c)] = np.array(sorted(dct))
         if self.w["fmt"] == "nested" and isinstance(self.H, dict):
             for o, rows in self.H.items():
                 for i, row in enumerate(rows):
@@ -779,7 +783,10 @@ class Sim:
         if isinstance(fd, dict) and "sqmask" in fd:
             kw["fully_diagonalize"] = {b: self.inp.sq_masks[fd["sqmask"]].copy() for b in fd["blocks"]}
         elif isinstance(fd, dict):
-            kw["fully_diagonalize"] = dict(self.inp.masks[c])
+            # the caller keeps its mask dictionary and passes the same object again when it re-defines the computation
+            if c not in self._fd_dicts:
+                self._fd_dicts[c] = dict(self.inp.masks[c])
+            kw["fully_diagonalize"] = self._fd_dicts[c]
             if self.inp.nb == 1 and fd.get("bare"):
                 kw["fully_diagonalize"] = self.inp.masks[c][0]  # one block: the boolean array may be given without a dict
         elif fd:
@@ -787,10 +794,12 @@ class Sim:
         if self.w["fmt"] == "implicit" and spec.get("kpm"):
             kw["direct_solver"] = False
             kw["solver_options"] = {"atol": 1e-3}
-        if spec.get("solver") == "custom":
-            kw["solve_sylvester"] = self._custom_solver(False)
-        elif spec.get("solver") == "legacy":
-            kw["solve_sylvester"] = self._custom_solver(True)
+        if spec.get("solver") in ("custom", "legacy"):
+            # one solver object of the caller serves every computation (and every re-definition) that uses it
+            key = spec["solver"]
+            if key not in self._solvers:
+                self._solvers[key] = self._custom_solver(key == "legacy")
+            kw["solve_sylvester"] = self._solvers[key]
         H = self.H
         if spec.get("chain") is not None:
             k = spec["chain"]
